@@ -171,6 +171,7 @@ fn hook_callback(name: &'static str) {
         "sf.window.lookup_register" => { if let Some(c) = caller { park(epoch, c, 0) } },
         "sf.window.complete_remove" => { if let Some(c) = caller { park(epoch, c, 1) } },
         "sf.window.remove_return" => { if let Some(c) = caller { park(epoch, c, 2) } },
+        "sf.window.before_register" => { if let Some(c) = caller { park(epoch, c, 3) } },
         _ => {},
     }
 }
@@ -263,7 +264,7 @@ fn gen_scenario(rng: &mut Rng, mode: Mode, max_callers: u64) -> Scenario {
     let mut parks = HashMap::new();
     if mode != Mode::Ct {
         for c in 0..n {
-            for w in 0..3u8 {
+            for w in 0..4u8 {
                 let p = match rng.below(8) {
                     0 | 1 | 2 | 3 => Park::None,
                     4 => Park::SleepUs(rng.range(20, 400)),
@@ -654,7 +655,7 @@ fn directed(rng: &mut Rng, mode: Mode, which: u64) -> Scenario {
     let mk = |key, outcome, pre, task, wave, thread| CallerSpec { key, outcome, pre, task, wave, thread };
     let mut parks = HashMap::new();
     let threads = 3;
-    let callers = match which % 4 {
+    let callers = match which % 5 {
         0 => {
             // waiter 1 looks the call up, then sleeps in the window while owner 0 completes
             parks.insert((1, 0u8), Park::Progress { n: rng.range(2, 5) as usize, timeout_us: 2000 });
@@ -675,6 +676,12 @@ fn directed(rng: &mut Rng, mode: Mode, which: u64) -> Scenario {
             vec![mk(0, outcome, Delay::None, Delay::Yields(rng.range(0, 3) as u32), 0, 0),
                  mk(0, 0, Delay::UntilEvents(1, 400), Delay::None, 0, 1),
                  mk(0, 0, Delay::UntilEvents(1, 400), Delay::None, 0, 2)]
+        },
+        4 => {
+            // waiter 1 found the call unfinished and is parked right before it registers for the notification, while owner 0
+            // completes: the waiter must still get the outcome (it holds the read lock there, so the completion waits for it)
+            parks.insert((1, 3u8), Park::Progress { n: rng.range(1, 3) as usize, timeout_us: rng.range(800, 2500) });
+            vec![mk(0, outcome, Delay::None, Delay::UntilEvents(2, 400), 0, 0), mk(0, 0, Delay::UntilEvents(1, 400), Delay::None, 0, 1)]
         },
         _ => {
             // waiter parked in the window across completion AND removal AND the creation of the next flight
@@ -728,7 +735,7 @@ pub fn run(ctx: &mut Ctx) {
         let mut r = rng.fork(tag);
         let mode = if i % 2 == 0 { Mode::Mt } else { Mode::MultiCt };
         let sc = directed(&mut r, mode, i / 2);
-        ctx.stat(&format!("directed.{}", (i / 2) % 4));
+        ctx.stat(&format!("directed.{}", (i / 2) % 5));
         one(ctx, &mut rts, &sc, tag);
     }
     if !quick { observe_owner_cancel(ctx, &mut rts); }
